@@ -20,6 +20,7 @@ whole name (`a.tar.torrent`), never an extension replacement, and the oracle com
 path with exactly that. The pre-state `stem_sibling` first creates, with the real binary, the torrent
 of a name with the same stem (`a.zip` for `a.tar`) into the same place: two names, two files."""
 import hashlib, itertools, json, os, shutil, subprocess, tempfile
+import zlib
 import lib
 
 MANIFEST = dict(
@@ -48,6 +49,7 @@ OUTPUTS = ("none", "file", "file_abs", "dir", "dirslash", "dirlink", "stdout", "
 # linkcwd: the working directory was entered through a symbolic link whose own parent is another directory, $PWD carries that
 # logical spelling (as after `cd link` in a shell) and the target climbs out with `..` - the operating system's meaning of `..`
 # (the physical parent) is the documented place. (Added after seeded changes C09-11 and C09-10.)
+PRE_FILE_CONTENTS = (b"precious bytes\n", b"", b"precious bytes\n" * 5000, b"", b"d4:infod6:lengthi0eee")
 PRE = ("absent", "file", "dir", "dangling", "link_file", "dangling_noparent", "stem_sibling")
 NAMES = ("none", "plain", "sub", "up", "abs", "dotdot", "dot", "empty", "trail", "longmid", "dots3", "tar", "abc", "hid", "xdot")
 # acceptable names with a dot in them: the output is `<name>.torrent` appended to the whole name
@@ -299,7 +301,10 @@ def build(S, c, rng):
     pre = c["pre"]
     if pre != "absent" and final is not None and os.path.isdir(os.path.dirname(final)) and not os.path.lexists(final):
         if pre == "file":
-            wfile(final, b"precious bytes\n")
+            # what is already there varies: a few bytes, nothing at all (a placeholder left by mktemp / touch / an interrupted
+            # run), something longer than any torrent written here  (added after seeded change C09-14: an empty file at the
+            # output path was treated as absent)
+            wfile(final, PRE_FILE_CONTENTS[zlib.crc32(repr(sorted(c.items())).encode()) % len(PRE_FILE_CONTENTS)])
         elif pre == "dir":
             os.makedirs(final)
             wfile(j(final, b"inside.txt"), b"inside\n")
